@@ -193,6 +193,11 @@ class Check:
         """A replayed (reproduced against the real code) violation.  `key` is the stable
         finding key matched against known_findings.json."""
         self.replays_run += 1
+        # a replay that fails on the harness's own stand-in objects (the duck calculators are `Obj` instances, token files carry
+        # tokens ...) says that the code now reads something the stand-in does not provide -- a limit of the harness, not a finding
+        if "'Obj' object has no attribute" in what or "object has no attribute" in what and "Obj" in what.split("object has no attribute")[0][-12:]:
+            self.harness_error("replay could not be carried out on the harness's stand-in object (%s)" % what[:160])
+            return False
         if any(v["key"] == key for v in self.violations) or any(v["key"] == key for v in self.known_hits):
             return False   # one line per finding key
         for k in self.known.get("known", []):
